@@ -183,6 +183,14 @@ namespace sse
         return a;
     }
 
+    // one oracle finding: signature suffix (without the property prefix) + free text
+    struct Finding
+    {
+        std::string sig;
+        std::string detail;
+    };
+    using Findings = std::vector<Finding>;
+
     // ------------------------------------------------------------------ report
     struct Violation
     {
